@@ -182,6 +182,12 @@ def advance (s : St) (n : Nat) : St :=
   { s with pos := s.pos + n, rest := s.rest.drop n,
            prev := if n = 0 then s.prev else (s.rest.drop (n - 1)).head? }
 
+/-- `eol()` after a match of length `len`: the next character is a newline or the sentinel. -/
+def eolAfter (s : St) (len : Nat) : Bool :=
+  match (s.rest.drop len).head? with
+  | some c => c = '\n' || c = Char.ofNat 0
+  | none => true
+
 /-- execute the action of the winning rule for a match of length `len` at `s.pos`.
 Returns the new state and whether scanning goes on. -/
 def exec (s : St) (len : Nat) : Action → St × Bool
@@ -203,10 +209,7 @@ def exec (s : St) (len : Nat) : Action → St × Bool
     (advance { s1 with lineSection := some (s1.toks.length - 1) } len, true)
   | .gotoNotBol => (s, true)          -- handled by `step`
   | .sectionEndOrText =>
-    let eol := match (s.rest.drop len).head? with
-      | some c => c = '\n' || c = Char.ofNat 0
-      | none => true
-    if eol && s.lineSection.isSome then
+    if eolAfter s len && s.lineSection.isSome then
       (advance (found { s with lineSection := none } t_section_end s.pos len) len, true)
     else (advance (found s t_text s.pos len) len, true)
   | .breakSplit =>
